@@ -112,6 +112,68 @@ def build(hist):
     return o
 
 
+def check_scenarios(tier):
+    """(1) one dictionary object reused and edited in place by the caller; (2) the very first object of a freshly imported
+    package gets a palette update and objects created later must still start from the default."""
+    from ..engines.history import fresh_world
+    acc = core.Acc()
+    pals = valid_palettes()
+    for name, p in pals:
+        for fault in ("bad-colour", "missing-key"):
+            case = {"kind": "reused-dict", "palette": name, "fault": fault}
+            acc.transitions += 3
+            acc.traces += 1
+            o = SP(CYCLE)
+            d = dict(p)
+            try:
+                o.set_HTMLColorResiduePalette(d)
+            except Exception as e:  # noqa
+                acc.viol("valid-palette-rejected", "valid palette %s rejected (%r)" % (name, e), case)
+                continue
+            # the caller now edits ITS dictionary; the object's palette must not follow
+            if fault == "bad-colour":
+                d["K"] = "pink"
+            else:
+                del d["D"]
+            try:
+                obs = observe_palette(o)
+            except Exception as e:  # noqa
+                obs = "rendering raised %r" % (e,)
+            if obs != p:
+                acc.viol("palette-aliases-callers-dict", "after set(d) with palette %s and then an edit of d by the caller (%s), rendering shows %r"
+                         % (name, fault, obs if isinstance(obs, str) else sorted(obs.items())[:8]), case)
+                continue
+            try:
+                o.set_HTMLColorResiduePalette(d)
+                acc.viol("invalid-palette-accepted", "the edited dictionary (%s) was accepted" % fault, case)
+            except Exception:  # noqa
+                pass
+            try:
+                obs = observe_palette(o)
+            except Exception as e:  # noqa
+                obs = "rendering raised %r" % (e,)
+            if obs != p:
+                acc.viol("rejected-update-changed-palette", "palette %s: after the rejected re-submission of the edited dictionary rendering "
+                         "shows %r" % (name, obs if isinstance(obs, str) else sorted(obs.items())[:8]), case)
+    for name, p in pals[1:]:
+        case = {"kind": "first-object", "palette": name}
+        acc.transitions += 2
+        acc.traces += 1
+        fresh_world()
+        first = SP(CYCLE)            # the first Sequence this package instance ever builds
+        try:
+            first.set_HTMLColorResiduePalette(dict(p))
+        except Exception as e:  # noqa
+            acc.viol("valid-palette-rejected", "valid palette %s rejected (%r)" % (name, e), case)
+            continue
+        later = SP(CYCLE)
+        if observe_palette(later) != T.DEFAULT_PALETTE or observe_palette(first) != p:
+            acc.viol("palette-leaks-between-objects", "in a fresh package the first object got palette %s; an object created afterwards renders "
+                     "with %r" % (name, sorted(observe_palette(later).items())[:6]), case)
+    acc.states += 2 * len(pals)
+    return acc
+
+
 def render_inputs(full):
     seqs = [a + b for a in T.AA for b in T.AA] + list(T.AA)
     for r in range(20):
@@ -207,6 +269,9 @@ def render_shard(args):
 
 
 def replay(case):
+    if case.get("kind") in ("reused-dict", "first-object"):
+        a = check_scenarios("quick")
+        return [v for v in a.violations if v["case"].get("palette") == case.get("palette") and v["case"]["kind"] == case["kind"]]
     full = case.get("tier") == "thorough"
     ops = {o[0]: o for o in ops_list(full)}
     out = []
@@ -255,6 +320,7 @@ def run(tier, seed, t0):
             shards.append((full, tier, hn, st, seqs[chunk:chunk + 400]))
     acc.merge(core.pmap(render_shard, shards))
     acc.states = len(seen)
+    acc.merge(check_scenarios(tier))
     return core.finish(
         PROP, tier, seed, acc, t0,
         rule="BFS over histories of set_HTMLColorResiduePalette with %d arguments (19 valid palettes: default, 17 one-colour, one "
@@ -264,7 +330,9 @@ def run(tier, seed, t0):
              "exception and palette unchanged; fixpoint reached. In every palette state every 1- and 2-residue word and the 20 "
              "rotations of the 20-letter cycle at lengths %s are rendered and parsed: one span per residue in order, colour = model "
              "palette entry, exactly one space before residues 0,10,20,.., a <br> before residues 0,50,100,.., stripped markup == "
-             "sequence. dont-care: upper-case colour names, extra keys; non-trivial = renders longer than one block of 10" % (
+             "sequence. Scenarios: the caller edits its own dictionary in place after an accepted update (the palette must not follow, the "
+             "re-submission must be rejected and change nothing); in a freshly imported package the very first object receives each "
+             "valid palette and an object created afterwards must still render with the default. dont-care: upper-case colour names, extra keys; non-trivial = renders longer than one block of 10" % (
                  len(ops), "all" if full else "3", ", None, 5" if full else "", "1..120" if full else "{1,9,10,11,20,49,50,51,60,99,100,101,120}"),
         bounds={"palette_ops": len(ops), "render_inputs_per_state": len(seqs), "depth": "fixpoint"},
         assumptions=["the palette is observed through rendering only (no attribute reads)"])
